@@ -54,6 +54,8 @@ class Wide:
         self.where = [None] * n           # (file, line) of the last preemption point
         self.block_timeout = block_timeout
         self.infeasible = False
+        self.record = False
+        self.files = [[] for _ in range(n)]   # with record: module of every counted line
 
     def _tracer(self, tid):
         prefix = self.prefix
@@ -61,6 +63,8 @@ class Wide:
         def local(frame, event, arg):
             if event == 'line':
                 self.count[tid] += 1
+                if self.record:
+                    self.files[tid].append(frame.f_code.co_filename[len(prefix):])
                 if self.count[tid] == self.stop_at[tid]:
                     self.where[tid] = (frame.f_code.co_filename[len(prefix):], frame.f_lineno,
                                        frame.f_code.co_name)
